@@ -106,7 +106,7 @@ func (v *Vue) renderNodesWithContext(ctx VueContext, w io.Writer, nodes []*html.
 }
 
 // toMapData converts any value to map[string]any for use as template context.
-// If data is already a map[string]any, it's returned as-is.
+// If data is already a map[string]any, a shallow copy of it is returned.
 // If data is a struct, it's converted to a map using JSON tags.
 // Otherwise, returns an empty map (which will still allow field access via Stack.rootData fallback).
 func toMapData(data any) map[string]any {
@@ -114,7 +114,13 @@ func toMapData(data any) map[string]any {
 		return make(map[string]any)
 	}
 	if m, ok := data.(map[string]any); ok {
-		return m
+		// Rendering writes into this map (front-matter, <template :x> bindings):
+		// work on a copy, the caller's map is never modified
+		out := make(map[string]any, len(m))
+		for k, v := range m {
+			out[k] = v
+		}
+		return out
 	}
 	// Try to convert struct to map using JSON tags
 	if m := reflect.StructToMap(data); len(m) > 0 {
